@@ -643,7 +643,7 @@ func (w *World) drain(op int64) []hx.Zs {
 		case model.CmdClassifierTypeReply:
 			out = append(out, hx.Zs{4, it.ski, 3})
 		case model.CmdClassifierTypeRead, model.CmdClassifierTypeCall:
-			if op == 16 || op == 17 {
+			if op == 16 || op == 17 || op == 23 || op == 24 {
 				var kind int64
 				switch {
 				case c.NodeManagementSubscriptionRequestCall != nil:
